@@ -1,5 +1,6 @@
 import Tahoe.Happiness.LemmasSpread2
 import Tahoe.Happiness.Selector
+import Tahoe.Happiness.LemmasSelector
 /-!
 C07 — share placement is complete, respects read-only servers, maximizes spread.
 
@@ -19,6 +20,7 @@ caller, as a state machine).  Helper lemmas: `Tahoe/Happiness/LemmasPlacement*.l
 | "assigns a read-only server only shares it already holds" | `readonly_only_existing`; for the plans of a selector history `plan_readonly_only_existing` |
 | "spreads shares over the largest number of distinct servers achievable under those constraints" | `spread_maximal` (no placement respecting the read-only clause uses more distinct servers), `spread_ge_matching` (same against every server/share matching), `phase_is_maximum_matching` (each phase is a maximum matching of its network) |
 | "so an upload is never declared unhappy when a happy layout was reachable" | the plan part is the line above; the allocation loop of `Tahoe2ServerSelector.get_shareholders` that consumes the plan is **monitor only** (`harness/props/c07.py` `run_grid`: real selection on the in-process grid with a failing server); the plan the loop sees is fresh: `plan_is_fresh`, `state_ignores_gets` |
+| the plan's *input*: what the uploader told the selector before the first plan | specification `toldState` (every server added, read-only ones demoted, every share on disk booked under the server that answered with it) with `told_state_is_ground_truth`; that `Tahoe2ServerSelector.get_shareholders` really puts the selector into that state is **correspondence + monitor** (`run_reupload`: re-uploads on the in-process grid, recorded selector state vs shares on disk and vs `toldState`) |
 | (code before the repairs) | `readonly_only_existing_counterexample`, `shared_indexedShares_row`, `spread_maximal_counterexample`, `spread_maximal_counterexample_after_first_fix`: clauses 2 and 3 are false of `Cfg.asIs` |
 
 Not covered by theorems: existing-share entries of servers in neither set (bad servers) and share
@@ -239,5 +241,46 @@ theorem plan_readonly_only_existing (s : SelState) (pre : List SelOp) (res : Lis
 example : ((SelState.init 2).after [.addPeer 0, .addPeer 1, .addPeerWithShare 1 0, .markReadonly 1]).peers = [0] ∧
     ((SelState.init 2).after [.addPeer 0, .addPeer 1, .addPeerWithShare 1 0, .markReadonly 1]).readonly = [1] := by
   decide
+
+/-! ### The planner's input (`toldState`)
+
+`share_placement` can only be as good as the existing-share relation it is given.  The
+specification of that input: at the first plan of an upload the selector holds exactly the ground
+truth — each share found on a server is booked under *that* server (an answer attributed to
+another server gives the planner a false relation; the harness compares the real selector's state
+in grid re-uploads with `toldState` and with the shares on disk). -/
+
+/-- **told_state_is_ground_truth**: the prescribed state has writable = all servers but the read-only
+ones, read-only as given, no bad server, and its existing-share relation is exactly "server holds
+share on disk" (as a well-formed dict: distinct keys, sorted duplicate-free share sets) -/
+theorem told_state_is_ground_truth (total nsrv : Nat) (ro : List Nat) (held : SetMap) :
+    (∀ p, p ∈ (toldState total nsrv ro held).peers ↔ p < nsrv ∧ p ∉ ro) ∧
+    (∀ p, p ∈ (toldState total nsrv ro held).readonly ↔ p ∈ ro) ∧
+    (toldState total nsrv ro held).bad = [] ∧
+    (∀ e, e ∈ relOfServermap (toldState total nsrv ro held).existing ↔ e ∈ relOfServermap held) ∧
+    SbsInv (toldState total nsrv ro held).existing :=
+  toldState_spec total nsrv ro held
+
+/-- the seeded scenario: four servers, server 1 read-only and holding share 0: the plan computed
+from the prescribed state keeps share 0 on server 1 and uses all four servers -/
+example : (toldState 4 4 [1] [(1, [0])]).existing = [(1, [0])] ∧
+    (toldState 4 4 [1] [(1, [0])]).peers = [0, 2, 3] ∧ (toldState 4 4 [1] [(1, [0])]).readonly = [1] ∧
+    (toldState 4 4 [1] [(1, [0])]).plan Cfg.fixed = .ok [(0, 1), (1, 0), (2, 2), (3, 3)] := by decide
+
+/-- the plan for the prescribed state obeys the read-only clause w.r.t. the shares on disk -/
+theorem plan_of_told_state_readonly (total nsrv : Nat) (ro : List Nat) (held : SetMap)
+    (res : List (Nat × Nat)) (hW : (toldState total nsrv ro held).peers ≠ [])
+    (h : (toldState total nsrv ro held).plan Cfg.fixed = .ok res) :
+    ∀ sh p, (sh, p) ∈ res → p ∈ ro → (p, sh) ∈ relOfServermap held := by
+  obtain ⟨h1, h2, _, h4, _⟩ := toldState_spec total nsrv ro held
+  intro sh p hsp hp
+  have := readonly_only_existing _ _ _ _ res hW (fun x hx hr => ((h1 x).mp hx).2 ((h2 x).mp hr)) h sh p hsp
+    ((h2 p).mpr hp)
+  obtain ⟨x, hx, hx1, hx2⟩ := this
+  apply (h4 (p, sh)).mp
+  rw [mem_relOfServermap]
+  exact ⟨x, hx, hx1, hx2⟩
+
+example : (toldState 4 4 [1] [(1, [0])]).peers ≠ [] := by decide
 
 end Tahoe.C07
